@@ -1,0 +1,38 @@
+//! Verification hooks, compiled only with `--cfg rws_verif` (off by default).
+//! They let an external harness observe and perturb the synchronisation points
+//! of the worker pool. Without a callback and without `RWS_VERIF_TRACE=1` a hit is a no-op.
+
+use std::sync::atomic::{AtomicU64, Ordering};
+use std::sync::OnceLock;
+
+#[derive(Copy, Clone, Debug, PartialEq, Eq)]
+pub enum Point {
+    Submit,
+    BeforeLock,
+    Locked,
+    Received,
+    Finished,
+}
+
+pub type Callback = Box<dyn Fn(Point, usize) + Send + Sync>;
+
+static CALLBACK: OnceLock<Callback> = OnceLock::new();
+static TRACE: OnceLock<bool> = OnceLock::new();
+static SEQ: AtomicU64 = AtomicU64::new(0);
+
+/// Installs the callback (once per process). Returns false if one was already installed.
+pub fn set(callback: Callback) -> bool {
+    CALLBACK.set(callback).is_ok()
+}
+
+pub fn hit(point: Point, worker: usize) {
+    if let Some(callback) = CALLBACK.get() {
+        callback(point, worker);
+        return;
+    }
+    let trace = *TRACE.get_or_init(|| std::env::var("RWS_VERIF_TRACE").map(|v| v == "1").unwrap_or(false));
+    if trace {
+        let seq = SEQ.fetch_add(1, Ordering::SeqCst);
+        eprintln!("VERIF-EVENT {} {:?} {}", seq, point, worker);
+    }
+}
